@@ -7,8 +7,8 @@
                                        => noWriteOrDelete on error, needle map (in-memory, or the sorted
                                        file map for a read-only volume)
      weed/storage/volume_checking.go   CheckAndFixVolumeDataIntegrity, doCheckAndFixVolumeData,
-                                       verifyIndexFileIntegrity, verifyNeedleIntegrity,
-                                       verifyDeletedNeedleIntegrity
+                                       verifyIndexFileIntegrity (drops a torn trailing entry),
+                                       verifyNeedleIntegrity (also used for deletion entries)
      weed/storage/needle_map_memory.go doLoading;  needle_map_sorted_file.go NewSortedFileNeedleMap,
      weed/storage/erasure_coding/ec_encoder.go readNeedleMap (what the .sdx is built from),
      weed/storage/needle_map_metric.go reverseWalkIndexFile (refuses a size that is no multiple of 16)
@@ -210,17 +210,6 @@ Inductive cres :=
 Section WithCrc.
   Variable crc : list N -> N.
 
-  (* verifyDeletedNeedleIntegrity: ReadData(fileSize - DiskSize(empty needle), Size 0), then the id *)
-  Definition verify_deleted (d : dfile) (key : N) : cres :=
-    let sz := actual_size 0 Ver in                     (* 32 *)
-    if d_fsize d <? sz then COther                     (* negative offset: ReadAt fails *)
-    else
-      let '(dn, st) := read_data crc (d_bytes d) (d_fsize d - sz) 0 Ver in
-      match st with
-      | SOk => if id (d_n dn) =? key then CNil else COther
-      | _ => COther                                    (* wrapped by fmt.Errorf: never ErrorSizeMismatch / EOF *)
-      end.
-
   (* verifyNeedleIntegrity, version 3; [size] >= 0 *)
   Definition verify_needle (d : dfile) (off key : N) (size : Z) : cres * dfile :=
     let rest := dropN off (d_bytes d) in
@@ -243,11 +232,11 @@ Section WithCrc.
       | _ => (COther, d)
       end.
 
-  (* doCheckAndFixVolumeData on one index entry *)
+  (* doCheckAndFixVolumeData on one index entry (as repaired for finding c03-tombstone-tail-readonly:
+     a deletion entry is verified at the tombstone record it points to, which has Size 0) *)
   Definition check_entry (d : dfile) (e : entry) : cres * dfile :=
     if e_off e =? 0 then (CNil, d)
-    else if (e_size e <? 0)%Z then (verify_deleted d (e_key e), d)
-    else verify_needle d (e_off e * 8) (e_key e) (e_size e).
+    else verify_needle d (e_off e * 8) (e_key e) (if (e_size e <? 0)%Z then 0%Z else e_size e).
 
   (* the loop of CheckAndFixVolumeDataIntegrity over the last <= 10 entries, newest first;
      [cnt] = number of entries up to and including the head of [es]; [healthy] in entries;
@@ -288,20 +277,16 @@ Section WithCrc.
 
   Inductive lres :=
   | LNotLoaded                   (* NewVolume returns an error: the volume is not served *)
-  | LPanic                       (* run-time panic inside Volume.load *)
   | Loaded (L : lstate).
 
   (* Volume.load(alsoLoadIndex = true) on existing files *)
   Definition load (f : files) : lres :=
     (* fileSize < SuperBlockSize: "volume ... not initialized" *)
     if len (f_dat f) <? SuperBlockSize then LNotLoaded
-    else if negb (f_torn f =? 0) then
-      (* verifyIndexFileIntegrity fails => noWriteOrDelete => NewSortedFileNeedleMap, whose
-         newNeedleMapMetricFromIndexFile refuses the file size and returns (nil, err); v.nm is
-         then a non-nil interface holding a nil *SortedFileNeedleMap and the deferred cleanup
-         of load calls v.nm.Close() on it: nil pointer dereference *)
-      LPanic
     else
+      (* verifyIndexFileIntegrity (as repaired for finding c03-torn-index-entry-panic): the
+         [f_torn f] bytes of a torn trailing entry are cut off the index file (opened read-write:
+         the data file is writable) and the check goes on with the whole entries *)
       let '(err, d, es) := check_and_fix (open_dat (f_dat f)) (f_idx f) in
       Loaded {| l_dat := d; l_idx := es;
                 l_map := if err then load_sorted es else load_compact es;
@@ -461,7 +446,7 @@ Definition wres_code (w : wres) : N :=
   match w with WOk => 0 | WUnchanged => 1 | WReadOnly => 2 | WOther => 3 end.
 
 Record obs := {
-  o_load : N;                        (* 0 loaded, 1 not loaded, 2 panic *)
+  o_load : N;                        (* 0 loaded, 1 not loaded (2 = run-time panic: never in the model) *)
   o_readonly : bool;
   o_dat_len : N;                     (* bytes of the .dat on disk after the load *)
   o_idx_len : N;                     (* bytes of the .idx on disk after the load *)
@@ -476,8 +461,6 @@ Definition observe (crc : list N -> N) (f : files) (keys : list N) (fresh : need
   match load crc f with
   | LNotLoaded => {| o_load := 1; o_readonly := false; o_dat_len := 0; o_idx_len := 0; o_reads := [];
                      o_write := 0; o_fresh := (0, 0, []); o_dat_len2 := 0; o_idx_len2 := 0 |}
-  | LPanic => {| o_load := 2; o_readonly := false; o_dat_len := 0; o_idx_len := 0; o_reads := [];
-                 o_write := 0; o_fresh := (0, 0, []); o_dat_len2 := 0; o_idx_len2 := 0 |}
   | Loaded L =>
       let '(L2, w) := l_write crc L fresh in
       {| o_load := 0; o_readonly := l_nwod L;
@@ -499,17 +482,17 @@ Definition rec_end (st : pstate) (i : N) : N :=
          end
   end.
 
-(* write order: an index entry is appended only after its data record, so the entries that
-   survive (and the one being written when it tore) have their records in full *)
+(* write order: an index entry is appended only after its data record, so the whole entries
+   that survive have their records in full (so has the entry that tore, but nothing depends
+   on that: crash points with a torn entry whose record is incomplete are admitted too) *)
 Definition admissible (st : pstate) (dcut icut : N) : bool :=
-  let ie := icut / NeedleMapEntrySize in
-  let need := if icut mod NeedleMapEntrySize =? 0 then ie else ie + 1 in
   (icut <=? NeedleMapEntrySize * len (p_idx st)) && (dcut <=? len (p_dat st))
-  && (rec_end st need <=? dcut).
+  && (rec_end st (icut / NeedleMapEntrySize) <=? dcut).
 
-(* finding 0: the last surviving index entry is a tombstone and the data file does not end
-   exactly with that tombstone's record *)
-Definition trig_tombstone_tail (st : pstate) (dcut icut : N) : bool :=
+(* the crash points of the two repaired findings (kept to name the witnesses):
+   the last surviving index entry is a tombstone and the data file does not end exactly with
+   that tombstone's record; the index file ends inside an entry *)
+Definition tombstone_tail (st : pstate) (dcut icut : N) : bool :=
   let ie := icut / NeedleMapEntrySize in
   match ie with
   | 0 => false
@@ -518,6 +501,4 @@ Definition trig_tombstone_tail (st : pstate) (dcut icut : N) : bool :=
          | None => false
          end
   end.
-
-(* finding 1: the index file ends inside an entry *)
-Definition trig_torn_index (icut : N) : bool := negb (icut mod NeedleMapEntrySize =? 0).
+Definition torn_index (icut : N) : bool := negb (icut mod NeedleMapEntrySize =? 0).
